@@ -18,7 +18,9 @@ package cache
 
 //@ -- the cleanup callback: assumed not to touch the cache itself (no re-entrancy); it is counted per key
 //@ callback (c *Cache) pruneFn(key k, val v) (err error)
-//@   modifies Cache.cleanCount, Cache.failCount
+//@   modifies Cache.cleanCount, Cache.failCount, ghost(fswrites)
+//@   -- a cleanup may remove files (upload sessions of the directory store do), but only in a store that may write (C14)
+//@   ensures [fs-policy]{C14} !fsWritable() ==> fswrites() == old(fswrites())
 //@   ensures [counted] (err == nil ==> c.cleanCount[key] == old(c.cleanCount[key]) + 1 && c.failCount[key] == old(c.failCount[key])) &&
 //@             (err != nil ==> c.failCount[key] == old(c.failCount[key]) + 1 && c.cleanCount[key] == old(c.cleanCount[key]))
 //@   ensures [others] forall k2: k :: k2 != key ==> c.cleanCount[k2] == old(c.cleanCount[k2]) && c.failCount[k2] == old(c.failCount[k2])
@@ -28,6 +30,10 @@ package cache
 //@ callback (c *Cache) prunePostFn(key k, val v)
 //@   modifies Cache.preDepth
 //@   ensures [depth] c.preDepth == old(c.preDepth) - 1
+
+//@ -- the cache itself never touches the file system; its cleanup callbacks follow the policy of their store (C14)
+//@ funcs Cache.*
+//@   maintains [fs-policy]{C14} !fsWritable() ==> fswrites() == old(fswrites())
 
 //@ -- other mutexes are not touched
 //@ pred lockFrame(c) := forall m: Ref :: m != mutexAddr(c.mu) ==> (heldAt(m) <==> old(heldAt(m)))
